@@ -17,4 +17,23 @@ PROPS = {
                         "nil and empty byte slices are identified"],
         "rule": "seeded generator: raft.Logs over varint boundaries 2^(7k)+-1, MaxUint64, nil/empty/64KiB-crossing data, 7 time shapes x 6 zone shapes; malformed stream of 7 mutation kinds; distinct = distinct input lines",
     },
+    "C19": {
+        "streams": [S("mig", 700, 12000, vm=(40, 300), vm_maxlen=2500)],
+        "trusted": [GO, "raft.InmemStore and raft-boltdb/v2 as shipped in the module cache (used as source/destination stores)"],
+        "assumptions": ["LogStores are abstracted to the contiguous-log spec {first; entries} (what C05 states for the WAL); source indexes start at 1 and the last index is below MaxUint64 (uint64 loop variable)",
+                        "AppendedAt is projected to the instant (seconds, nanoseconds); nil and empty byte slices are identified",
+                        "batchSize is a mathematical integer in the model (Go int does not overflow below 2^63 bytes of log data)",
+                        "StableStore: byte and uint64 key spaces are disjoint; a key never set and an empty value are identified in the destination; what a source does for a key never set is a parameter of the model (InmemStore: Get fails; raft-boltdb: Get and GetUint64 fail; WAL: neither fails)"],
+        "rule": "seeded generator: 9 store pairings x source length 0..80 (thorough ..400) x first index (1, small, 2^(7k), last = MaxUint64-1) x batchBytes (0, 1, negative, MinInt64, MaxInt64, around 1..4 entries, around the whole log) x cancellation point x injected GetLog/StoreLogs failure x nil/buffered/unbuffered progress channel; CopyStable over 9 pairings x missing keys x extra keys x cancellation; distinct = distinct input lines",
+    },
+    "C07": {
+        "streams": [S("fstrace", 40, 400, vm=(8, 40), vm_maxlen=40000, timeout=3000)],
+        "trusted": ["strace 6.1 (-f -y): complete and correctly ordered log of the traced syscalls of the child process; ordering across threads is the order in which the tracer saw the syscall stops (causally ordered calls are never swapped)",
+                    "the kernel/file system makes data durable on fsync/fdatasync of the file and directory entries (creation, rename, unlink) durable on fsync of the directory, fallocate zero-fills, O_EXCL is exclusive (README assumptions; this is the disk semantics `dstep` of Fs/DisciplineFacts.v, not something the check can observe)",
+                    BBOLT, GO],
+        "assumptions": ["workloads start in a fresh directory (every file is created inside the trace); the checker rejects traces that touch unknown segment files",
+                        "a write is abstracted to its (offset, length) range; contents are not part of the trace",
+                        "C07_model_traces_ok is conditional on the caller of the fs layer syncing every written file before it acknowledges (wf_ops) -- the segment writer's sync path; the fst lines check that on the real traces"],
+        "rule": "6 fixed scenarios (create+first commit, rotation, head/tail truncation deleting files, close/reopen/append, reset of the empty first segment, oversized batch/truncate to empty) + seeded random WAL workloads (segment sizes 512..8192, appends, waits, truncations, close/reopen) run on the production fs.FS + BoltMetaDB under strace; fso: seeded fs-layer call sequences (create/openwriter/write/sync/close/delete/meta init/commit) compared event by event with the model's fs_trace; distinct = distinct input lines",
+    },
 }
